@@ -455,3 +455,38 @@ fn rfc_avp_name(n: u16) -> Option<&'static str> {
         _ => return None,
     })
 }
+
+// ---- discharge of the prelude's assumed wrapper contracts (R2) against std, full domain ---------------------------
+#[kani::proof]
+fn std_be_bytes() {
+    let a: u16 = kani::any();
+    let b = a.to_be_bytes();
+    assert!(b[0] as u16 == (a / 256) % 256 && b[1] as u16 == a % 256);
+    assert!(u16::from_be_bytes(b) == a);
+    let c: u32 = kani::any();
+    let d = c.to_be_bytes();
+    assert!(d[0] as u32 == (c / 16777216) % 256 && d[1] as u32 == (c / 65536) % 256 && d[2] as u32 == (c / 256) % 256 && d[3] as u32 == c % 256);
+    assert!(u32::from_be_bytes(d) == c);
+    let e: u64 = kani::any();
+    let f = e.to_be_bytes();
+    let hi = (e / 4294967296) as u32;
+    let lo = (e % 4294967296) as u32;
+    assert!(f[0..4] == hi.to_be_bytes() && f[4..8] == lo.to_be_bytes());
+    assert!(u64::from_be_bytes(f) == e);
+    kani::cover!(true);
+}
+#[kani::proof]
+#[kani::unwind(10)]
+fn std_slice_to_array() {
+    let buf: [u8; 8] = kani::any();
+    let n: usize = kani::any();
+    kani::assume(n <= 8);
+    let r: Result<[u8; 4], _> = buf[..n].try_into();
+    assert!(r.is_ok() == (n == 4));
+    if let Ok(a) = r {
+        assert!(a[0] == buf[0] && a[1] == buf[1] && a[2] == buf[2] && a[3] == buf[3]);
+    }
+    let r2: Result<[u8; 2], _> = buf[..n].try_into();
+    assert!(r2.is_ok() == (n == 2));
+    kani::cover!(true);
+}
